@@ -35,7 +35,7 @@ CLAIMS = {
     "C06": {
         "category": "exploration",
         "technique": "round-trip oracle on generated syntax trees: expected AstNode computed from the generator's tree and an independent precedence table; full / minimal / one-pair-removed / re-laid-out renderings parsed by the real parser",
-        "text": "Syntax trees over 36 forms (every ordered pair of forms forced, forced triples, random trees to depth 5, a targeted family of multi-segment paths after brackets) are rendered fully parenthesised, minimally parenthesised (left/right exposure of every sub-form tracked), minimally with each strictly needed pair removed one at a time, and in token-preserving layouts (blanks, tabs, newlines, Unicode spaces, line and block comments); parse_expression must return exactly the expected tree for the first, second and fourth, and a different tree or an error for the third. String escapes (\uXXXX, \UXXXXXX, surrogate pairs) are swept over code-point classes against the Python-computed string; unary tests are checked through parse_unary_tests.",
+        "text": "Syntax trees over 36 forms (every ordered pair of forms forced, forced triples, random trees to depth 5, a targeted family of multi-segment paths after brackets) are rendered fully parenthesised, minimally parenthesised (left/right exposure of every sub-form tracked), minimally with each strictly needed pair removed one at a time, and in token-preserving layouts (blanks, tabs, newlines, Unicode spaces, line and block comments); parse_expression must return exactly the expected tree for the first, second and fourth, and a different tree or an error for the third. String escapes (uXXXX, UXXXXXX and surrogate-pair forms) are swept over code-point classes against the Python-computed string; unary tests are checked through parse_unary_tests.",
         "note": "The precedence/associativity table in lib/props/c06.py is my restatement of the FEEL grammar cross-read with feel.y. Operand positions whose grammar limits are not restated (between bounds, iteration domains) are parenthesised conservatively and excluded from the removal test. All names are single words bound in the parsing scope (C10 owns the rest). Single-segment QualifiedName and Name nodes are identified.",
         "design_ref": "DESIGN.md §3 C06",
     },
